@@ -66,6 +66,9 @@ def gen_case(rng, tier, idx):
     eps = float(gen.pick(rng, [1e-2, 0.1, 1.0, 3.0, 30.0]))
     sens = float(gen.pick(rng, [0.1, 0.5, 1.0, 2.0, 10.0]))
     base = rng.rand(n) * 3 + 1e-3 if rng.rand() < 0.5 else None
+    if base is not None and n >= 2 and rng.rand() < 0.25:
+        # the best candidate is ruled out (measure 0) or all but ruled out (1e-200) by the base measure
+        base[int(np.argmax(q))] = float(gen.pick(rng, [0.0, 1e-200]))
     shift = float(gen.pick(rng, [1.0, -50.0, 1e3, 1e6, -1e6]))
     return dict(q=q, mag=mag, eps=eps, sens=sens, base=base, shift=shift, sub_seed=int(rng.randint(2 ** 31)),
                 bounded=bool(rng.rand() < 0.5), penalty=bool(rng.rand() < 0.5))
@@ -126,7 +129,8 @@ def run_case(case, ctx):
         rec = Rec()
         M = mech_mod.Mechanism(1.0, 0.0, bounded, prng=rec)   # delta = 0 skips the 0.3 s cdp_rho bisection in the constructor
         coef = eps / (2 * sens)
-        blog = None if base is None else np.log(base)
+        with np.errstate(divide='ignore'):
+            blog = None if base is None else np.log(base)
         ref = ref_probs(q, coef, blog, mp)
         held = q.copy()   # one float64 array object handed in twice: the second selection must be calibrated like the first
         held_base = None if base is None else blog.copy()
